@@ -12,6 +12,7 @@ import (
 	"errors"
 	"fmt"
 	"io"
+	"net/http"
 	"os"
 	"path/filepath"
 	"sort"
@@ -188,6 +189,11 @@ func (t *T) RunUntilCrash(k int, f func()) bool {
 	t.Quiesce()
 	return false
 }
+
+// Served returns the handler of the HTTP server the code under test started
+// on addr (engine only: the network is not modelled, requests are handed to
+// the handler directly; natively nil — harnesses send a real request instead).
+func (t *T) Served(addr string) http.Handler { return nil }
 
 // KillProcess ends every goroutine of the code under test (engine only).
 func (t *T) KillProcess() {}
